@@ -28,7 +28,7 @@ RULE = ('(a) library level: systems of 1-8 molecules built from 1-4 templates (2
         'deduplication; written with write_pdb, write_gro and write_gmx_topology. (b) the real CLI on homo-/hetero-'
         'oligomers assembled from test structures (copies translated / conformationally perturbed), with -elastic, '
         '-resid input, -sep, -merge. Non-trivial = >= 3 molecules, >= 2 sharing a name, not all adjacent. distinct = '
-        'distinct system hashes / CLI scenarios.')
+        'distinct system hashes / CLI scenarios. Also: near-copies with two keys swapped (same key set, same attributes position by position); residue numbers 0 and negative; CLI scenarios with two merged chain pairs whose chain identifiers sort differently (A+B, D+C).')
 ASSUMPTIONS = ['citation/header/comment text is ignored', 'molecules that differ only in position, chain, graph or '
                'mapping_weights may share a type', 'PDB fields are compared modulo the column truncation of the format']
 MIN_HITS = {'quick': 600, 'thorough': 25000}
